@@ -169,4 +169,6 @@ ParamsFull  == [start : {0, -4000, 98760}, sd : {800, 2400, 96}, md : {0, 80, 40
 \* lengths beyond the 100000 px cap (kept small elsewhere: 32-bit arithmetic in TLC)
 ParamsBig   == [start : {0, 800}, sd : {800}, md : {80}, td : {100000, 400000, Inf}, len : {900000, 800000}, spans : 1..2]
 ParamsSmall == [start : {0, 98760}, sd : {800}, md : {0, 80}, td : {0, 200, 300, 800, Inf}, len : {800}, spans : 1..3]
+\* three iterators in a row on one buffer (each may be abandoned at any point): 12 parameter sets
+ParamsTiny  == [start : {0}, sd : {800}, md : {0, 80}, td : {0, 300, Inf}, len : {800}, spans : 1..2]
 =============================================================================
